@@ -46,11 +46,9 @@ Fixpoint split_at_dot (s : str) : str * option str :=
 
 (* float(raw) for raw of the shape  -? digits ( . digits )?  with at least one
    digit; None stands for ValueError (any other shape) *)
-Definition dec_of_raw (raw : str) : option dec :=
-  let neg := match raw with c :: _ => c =? c_dash | [] => false end in
-  let body := if neg then tl raw else raw in
-  let '(ip, fpo) := split_at_dot body in
-  let fp := match fpo with Some f => f | None => [] end in
+Definition dec_of_body (neg : bool) (body : str) : option dec :=
+  let ip := fst (split_at_dot body) in
+  let fp := match snd (split_at_dot body) with Some f => f | None => [] end in
   match ip, fp with
   | [], [] => None
   | _, _ =>
@@ -58,6 +56,11 @@ Definition dec_of_raw (raw : str) : option dec :=
       | Some m => Some (mkDec neg m (length fp))
       | None => None
       end
+  end.
+Definition dec_of_raw (raw : str) : option dec :=
+  match raw with
+  | c :: r => if c =? c_dash then dec_of_body true r else dec_of_body false raw
+  | [] => None
   end.
 
 (* zero-padded decimal rendering of n on exactly [w] digits (n < 10^w) *)
